@@ -56,7 +56,8 @@ def replay(mods, scn, cse=None):
 
     try:
         model, symtab = make_ui_model(d, ui)
-        pn, sm, sn, cm = ekf_args(d, symtab)
+        import json as _json
+        pn, sm, sn, cm = ekf_args(d, symtab, variety="c16:" + _json.dumps(scn["def"]["state"]) + str(cse))
         cfg = python.Config(common_subexpression_elimination=bool(cse), innovation_filtering=d.gate())
         adapter = python.SklearnEKFAdapter.Create(model, pn, sm, sn, cm, config=cfg)
         # data matrix in the documented layout: [controls..., readings of each sensor in key order...]
